@@ -68,6 +68,20 @@ def run(ctx, prop):
                 {"k": "interface", "name": "IBase", "base": None, "members": [{"k": "error", "name": f"E{j}"}] + [
                     {"k": "method", "name": f"m{q}", "optional": False, "doc": None, "params": []} for q in range(j + 1)]}]})
         cases.append({"id": f"C13-ambiguous-{k}", "files": files, "main": "main.idl", "incdirs": dirs})
+    # a main file with several includes (orders of whatever a backend derives from the include
+    # list must not depend on the hash seed); no object structs, so Java runs as well
+    for k, nin in enumerate((2, 3, 5)):
+        files = [{"path": "main.idl", "nodes": [{"k": "include", "path": f"part{j}.idl"} for j in range(nin)] + [
+            {"k": "interface", "name": "ITop", "base": "IPart0", "members": [
+                {"k": "method", "name": "all", "optional": False, "doc": None,
+                 "params": [{"dir": "in", "type": f"SP{j}", "arr": None, "name": f"p{j}"} for j in range(nin)]}]}]}]
+        for j in range(nin):
+            files.append({"path": f"part{j}.idl", "nodes": [
+                {"k": "struct", "name": f"SP{j}", "fields": [{"type": "uint32", "count": j + 1, "name": "v"}]},
+                {"k": "const", "type": "uint16", "name": f"KP{j}", "value": str(j)},
+                {"k": "interface", "name": f"IPart{j}", "base": None, "members": [
+                    {"k": "method", "name": f"part{j}", "optional": False, "doc": None, "params": []}]}]})
+        cases.append({"id": f"C13-multi-include-{k}", "files": files, "main": "main.idl", "incdirs": []})
     oracle_fail, disagree, samples = [], [], []
     hist = {"runs": 0, "cases": 0, "variants_per_backend": 0}
     distinct = set()
@@ -99,7 +113,14 @@ def run(ctx, prop):
                 # (label, main argument, -I arguments, cwd)
                 variants.append(("rel-cwd-root", "main.idl", inc, rootA))
                 variants.append(("rel-cwd-root-again", "main.idl", inc, rootA))
-                if case["id"].startswith("C13-ambiguous"):
+                # the main FILE reached through a symbolic link that lives in another directory
+                flink_dir = os.path.join(tmp, "export")
+                os.makedirs(flink_dir, exist_ok=True)
+                flink = os.path.join(flink_dir, "main.idl")
+                if not os.path.lexists(flink):
+                    os.symlink(os.path.join(rootA, "main.idl"), flink)
+                variants.append(("file-symlink", flink, [os.path.join(rootA, d) for d in inc], tmp))
+                if case["id"].startswith("C13-ambiguous") or case["id"].startswith("C13-multi-include"):
                     for rep in range(6):
                         variants.append((f"repeat-{rep}", "main.idl", inc, rootA))
                 variants.append(("rel-cwd-root-third", "./main.idl", ["./" + d for d in inc], rootA))
